@@ -78,3 +78,13 @@ Definition x_sv_next (kind : nat) (t : str) : res str :=
   | Err e => Err e
   end.
 Definition x_sv_stable (t : str) : res bool := match semver_ctor t with Ok v => Ok (is_stable v) | Err e => Err e end.
+
+(* advisory converters on the generic scheme (C15) *)
+From UV.Native Require Import Advisory.
+Definition g_github := github_range str g_cmp g_vctor.
+Definition g_snyk := snyk_range str g_cmp g_vctor.
+Definition g_gitlab := gitlab_range str g_cmp g_vctor.
+Definition x_split_req := split_req.
+Definition x_native_tables := native_tables.
+Definition x_github_table := github_table.
+Definition x_snyk_table := snyk_table.
